@@ -175,6 +175,8 @@ type S2Params struct {
 	MaxExec  int `json:"max_exec,omitempty"`
 	ShardIdx int `json:"shard_idx,omitempty"`
 	ShardN   int `json:"shard_n,omitempty"`
+	// Prod: production decoration (logs + metrics decorators, all modules)
+	Prod bool `json:"prod,omitempty"`
 }
 
 var blocks = map[string]func() *Block{}
@@ -191,6 +193,17 @@ func runS2Job(j *check.Job) *check.Result {
 		return &check.Result{EngineError: "unknown block " + p.Block}
 	}
 	res := &check.Result{Bound: p.Bound, Extra: map[string]any{}}
+	mk0 := mk
+	mk = func() *Block {
+		b := mk0()
+		if p.Prod {
+			b.Cfg.Prod = true
+			b.Cfg.Modules = []string{"vikja", "odal", "dagaz"}
+		}
+		return b
+	}
+	rw := newRaceWatch()
+	lockEdges := map[vrt.LockEdge]struct{}{}
 	if j.Replay != nil {
 		b := mk()
 		out, x := RunBlock(b, &explore.FixedChooser{Choices: j.Replay.Choices}, true)
@@ -205,6 +218,8 @@ func runS2Job(j *check.Job) *check.Result {
 		return res
 	}
 	// determinism self-check: the default execution twice
+	RunBlock(mk(), &explore.FixedChooser{}, false) // warm-up: process-wide caches (message-type names) fill on first use
+	rw.fresh()
 	b := mk()
 	o1, _ := RunBlock(b, &explore.FixedChooser{}, false)
 	o2, _ := RunBlock(mk(), &explore.FixedChooser{}, false)
@@ -218,9 +233,20 @@ func runS2Job(j *check.Job) *check.Result {
 	}
 	var sample []int
 	st := explore.Explore(func(ch vrt.Chooser) explore.Outcome {
-		out, _ := RunBlock(mk(), ch, false)
+		out, x := RunBlock(mk(), ch, false)
+		for _, r := range rw.fresh() {
+			out.Violations = append(out.Violations, explore.Violation{Oracle: "race", Detail: r.Sig, Info: "unsynchronised conflicting accesses (Go race detector, happens-before, on this serialised execution):\n" + r.Text})
+		}
+		for e := range x.W.S.LockEdges {
+			lockEdges[e] = struct{}{}
+		}
 		return out
 	}, cfg)
+	if cyc := vrt.LockCycle(lockEdges); cyc != nil {
+		res.Violations = append(res.Violations, check.Violation{Scenario: j.Name, Oracle: "lock-order", Detail: "cycle:" + strings.Join(cyc, ">"), Info: "the lock-order graph accumulated over all explored executions has a cycle: " + strings.Join(cyc, " -> "), Tags: []string{"C09"}})
+	}
+	res.Extra["lock_order_edges"] = len(lockEdges)
+	res.Extra["race_build"] = vrt.RaceBuild
 	res.Executions = st.Executions
 	res.States = st.Executions
 	res.Transitions = st.Points
